@@ -1,6 +1,7 @@
 import SimuVerif.Lemmas.RemeshMerge7
 import SimuVerif.Lemmas.RemeshMerge8
 import SimuVerif.Lemmas.SurfaceCheckers
+import SimuVerif.Model.CellOkCheck
 /-
   `merge_edge` (edge COLLAPSE) of the executable bookkeeping model `Model/Remesh.lean` REFINES the abstract
   `Surface.collapseT` — the last of the three remeshing operations (split and swap are in `RemeshRefine.lean`).
@@ -310,18 +311,7 @@ section
 variable {R : Type} [Add R] [Sub R] [Mul R] [Div R] [Neg R] [Lit R] [LT R] [LE R] [DecidableLT R]
   [DecidableLE R] [DecidableEq R]
 
-/-- pick the first live face containing `v`, walk around `v` with `fanOf`, and validate the result with `fanB` -/
-def vertexManifoldAutoB (c : Cell R) (v : Nat) : Bool :=
-  match (List.range (slots c).length).find? (fun g =>
-      match liveAt (slots c) g with | some t => hasNode t v | none => false) with
-  | none => false
-  | some g =>
-    match liveAt (slots c) g with
-    | none => false
-    | some t =>
-      match fanOf c v (thirdNode t v v) g with
-      | some (fs, ns) => vertexManifoldB c v fs ns
-      | none => false
+-- `vertexManifoldAutoB` is defined in `Model/CellOkCheck.lean` (core Lean, compiled into the drivers)
 
 theorem vertexManifold_of_autoB {c : Cell R} {v : Nat} (h : vertexManifoldAutoB c v = true) :
     VertexManifold c v := by
